@@ -151,7 +151,15 @@ func (m *deprecatedModel) BindTools(tools []*schema.ToolInfo) error { m.bound = 
 // ---------------------------------------------------------------------------------------------------
 // tools
 
-func toolResult(name, args string) string    { return "R(" + name + "," + args + ")" }
+// toolResult: what a tool answers. Tool t2 answers with the EMPTY string on the second call of a turn and on
+// every call of the second turn: an empty answer is an answer like any other (it must reach the model, or
+// be returned when t2 is return-directly), identically under Generate and Stream.
+func toolResult(name, args string) string {
+	if name == "t2" && (strings.HasSuffix(args, `"i":1}`) || strings.HasPrefix(args, `{"k":1,`)) {
+		return ""
+	}
+	return "R(" + name + "," + args + ")"
+}
 func unknownResult(name, args string) string { return "U(" + name + "," + args + ")" }
 
 type baseTool struct{ name string }
@@ -178,6 +186,9 @@ type streamableTool struct{ baseTool }
 
 func (t streamableTool) StreamableRun(ctx context.Context, args string, _ ...tool.Option) (*schema.StreamReader[string], error) {
 	t.record(ctx, args)
+	if toolResult(t.name, args) == "" {
+		return schema.StreamReaderFromArray([]string{"", ""}), nil
+	}
 	return schema.StreamReaderFromArray([]string{"R(" + t.name + ",", args + ")"}), nil
 }
 
